@@ -39,6 +39,14 @@
                     Primitive::Reference(..) => "Reference", Primitive::Name(..) => "Name",
                 }
             }
+            // primitive.rs:560 (`unexpected_primitive!(Name, ..)` for anything but a name)
+            #[verifier::external_body]
+            pub fn as_name(&self) -> (r: Result<&str>)
+                ensures match *self {
+                    Primitive::Name(s) => r matches Ok(n) && n@ == s@,
+                    q => r == Err::<&str, PdfError>(PdfError::UnexpectedPrimitive { expected: "Name", found: q.debug_name() }),
+                }
+            { unimplemented!() }
             #[verifier::external_body]
             pub fn get_debug_name(&self) -> (r: &'static str) ensures r == self.debug_name() { unimplemented!() }
         }
